@@ -27,7 +27,7 @@ META = dict(
                  "after a completed write"],
     need=["crash_children_killed", "resume_runs", "digest_comparisons", "reference_event_lists_equal",
           "audit_crosschecks"],
-    quick=dict(cases=24, workers=8, budget_s=70),
+    quick=dict(cases=24, workers=12, budget_s=70),
     thorough=dict(cases=400, workers=16, budget_s=1500),
     design_ref="DESIGN.md §5 C24",
     level_text=("exhaustive (thorough tier) over the enumerated file-system event list of the given runs x crash "
